@@ -151,10 +151,12 @@ theorem replayOne_counter (r : WalRec) (s : Store) :
             · exact h1
             · exact h1
         · split
-          · split <;> exact h1
           · split
-            · exact h1
-            · exact h1
+            · split <;> exact h1
+            · split
+              · exact h1
+              · exact h1
+          · exact h1
   · exact Nat.le_refl _
 
 /-- one record never lowers the row-id counter -/
